@@ -237,6 +237,53 @@ def run_C13(ctx):
                             if is_np != want_np:
                                 out["failures"].append({"key": "C13:type", "net": net.to_json(),
                                                         "what": f"{nm} of {el.name} has type {type(x).__name__} under explicit {type(ex).__name__}"})
+                # ---- the same network stepped again with another explicit engine: nothing of the first
+                # engine may survive (variables re-created by the new engine), the first engine and the
+                # selected one evaluate nothing
+                ex2 = (RecCs("MX") if want_np else RecNp()) if ni % 2 == 0 else (RecCs() if want_np else RecNp())
+                del ex.log[:]
+                try:
+                    with np.errstate(all="ignore"):
+                        R.net.step(engine=ex2, **opts, **R.step_kwargs())
+                except Exception as exn:
+                    out["failures"].append({"key": "C13:restep-raise", "net": net.to_json(),
+                                            "what": f"selected {type(sel).__name__}: stepped with {type(ex).__name__} and then the same "
+                                                    f"network with {type(ex2).__name__}: the second step raised {exn!r:.200}"})
+                    continue
+                out["coverage"]["evaluations"] += 1
+                if sel.log or ex.log:
+                    out["failures"].append({"key": "C13:restep-other-used", "net": net.to_json(),
+                                            "what": f"second step with explicit {type(ex2).__name__}: the selected engine evaluated "
+                                                    f"{sorted(set(sel.log))}, the engine of the first step {sorted(set(ex.log))}"})
+                want_np2 = not want_np
+                for el in list(R.links.values()) + list(R.origins.values()) + list(R.dests.values()):
+                    for gname in ("states", "next_states", "actions", "disturbances"):
+                        for nm, x in (getattr(el, gname, None) or {}).items():
+                            is_np = isinstance(x, (np.ndarray, np.floating, float))
+                            if is_np != want_np2:
+                                out["failures"].append({"key": "C13:restep-type", "net": net.to_json(),
+                                                        "what": f"stepped with {type(ex).__name__}, then with explicit {type(ex2).__name__}: "
+                                                                f"{gname}[{nm}] of {el.name} still has type {type(x).__name__}"})
+                if engines.get_current_engine() is not sel:
+                    out["failures"].append({"key": "C13:step-writes-selection", "net": net.to_json(), "what": "the second step changed the selection"})
+                # ---- a step with an explicit engine that fails half-way leaves the selection untouched
+                kw = R.step_kwargs()
+                bad = [("missing tau", {k: v for k, v in kw.items() if k != "tau"}, {}),
+                       ("mis-shaped initial speed", kw,
+                        {"init_conditions": {next(iter(R.links.values())): {"v": np.zeros(7), "rho": np.ones(7)}}})][ni % 2]
+                try:
+                    with np.errstate(all="ignore"):
+                        R.net.step(engine=ex if ni % 4 < 2 else ex2, **bad[1], **bad[2])
+                    raised = None
+                except Exception as exn:
+                    raised = exn
+                out["coverage"]["evaluations"] += 1
+                if engines.get_current_engine() is not sel:
+                    out["failures"].append({"key": "C13:failed-step-writes-selection", "net": net.to_json(),
+                                            "what": f"selected {type(sel).__name__}; a step with an explicit engine and {bad[0]} "
+                                                    f"({'raised ' + type(raised).__name__ if raised else 'did not raise'}) left "
+                                                    f"{type(engines.get_current_engine()).__name__} selected"})
+                    engines.use(sel)
         engines.use(saved)
     finally:
         try:
